@@ -954,6 +954,55 @@ def run_same_name(res, d):
                                           'detail': {'class': cname, 'instantiated_first': first, 'problem': bad[1]}})
 
 
+SPELLINGS = ['u', 'u ', ' u', 'u\n', '\tu', 'a b', 'U', 'u1', '1', 'ü', 'u.v', 'u[0]', 'x' * 300]
+
+
+def run_spellings(res, d):
+    """the same name given twice - for children and for wires, at the top and inside a block - whatever characters it is made of:
+    the second call raises, the first child / wire stays where it was and stays the only one answering to that name"""
+    for nm in SPELLINGS:
+        for depth in (0, 1):
+            for kind in ('child', 'wire'):
+                hw = HWSystem()
+                par = hw if depth == 0 else Logic(hw, 'blk')
+                a, b, c = hw.wire('a'), hw.wire('b'), hw.wire('c')
+                res['evaluations'] += 1
+                res['configs'] += 1
+                raised = None
+                try:
+                    if kind == 'child':
+                        first = py4hw.Buf(par, nm, a, b)
+                    else:
+                        first = par.wire(nm)
+                except Exception as e:
+                    core.reset_prepared()
+                    continue                    # a name the library does not accept at all: nothing to compare
+                try:
+                    if kind == 'child':
+                        py4hw.Not(par, nm, a, c)
+                    else:
+                        par.wire(nm, 2)
+                except Exception as e:
+                    raised = e
+                table = par.children if kind == 'child' else par._wires
+                holders = [k for k, v in table.items() if v is first]
+                bad = None
+                if raised is None:
+                    bad = ('not-raised', 'the second %s named %r was accepted' % (kind, nm))
+                elif not holders:
+                    bad = ('earlier-%s-replaced' % kind, 'the first %s named %r is no longer listed by its parent' % (kind, nm))
+                elif kind == 'child' and (b.getSource() is None or b.getSource().parent is not first):
+                    bad = ('earlier-driver-replaced', 'wire b is no longer driven by the first child')
+                else:
+                    res['distinct_nontrivial'] += 1
+                if bad:
+                    sig = 'C11:spelling:%s:%s' % (bad[0], kind)
+                    if not any(v['sig'] == sig for v in res['violations']):
+                        res['violations'].append({'sig': sig, 'shard': d, 'trace': [nm, depth, kind],
+                                                  'detail': {'name': nm, 'inside_a_block': bool(depth), 'problem': bad[1],
+                                                             'raised': repr(raised)[:160] if raised else None}})
+
+
 class _IfSrc(Logic):
     """primitive producer whose ports come from an Interface"""
     def __init__(self, parent, name, itf):
@@ -1038,6 +1087,7 @@ def run_names(d):
     if d.get('first') is None:
         run_same_name(res, d)
         run_iface_ports(res, d)
+        run_spellings(res, d)
         return res
     seen = set()
     for n in range(0, d['D']):
@@ -1089,6 +1139,7 @@ def replay(v):
             r = {'evaluations': 0, 'configs': 0, 'distinct_nontrivial': 0, 'violations': []}
             run_same_name(r, v['shard'])
             run_iface_ports(r, v['shard'])
+            run_spellings(r, v['shard'])
             hit = [x for x in r['violations'] if x['sig'] == v['sig']]
             return {'violates': bool(hit), 'detail': hit[:1]}
         r = run_names_history([tuple(o) for o in v['trace']])
